@@ -19,6 +19,7 @@ RULE = (
     "non-default controller/option/payload, or a pattern with a non-empty cell, or a long name"
     " Also (added while the seeded-change rounds of DESIGN section 9 ran): Recipes also draw: the SunVox version the file is written as, the order of a module's groups of assignments, mappings at and beyond the user-controller count, trailing empty positions, chains of pattern clones, MultiCtl.macro modules (with and without name), tricky / long / default-looking texts, format byte patterns inside data, samples of 64 KiB and 1 MiB; a family of projects with more than 255 modules; every fourth case has a failed save in its past; what write_to writes into streams, real files (w / a / r+), compressing files, and what copy.deepcopy / pickle copies and Project.clone() write or hold is compared too."
 )
+RULE += " Rounds 12-14 of DESIGN section 9 added: loading also through gzip / bz2 / lzma file objects."
 ASSUMPTIONS = [
     "equality is on vlib.snapshot's public-attribute snapshot with its documented normalisations (module names cut to 32 UTF-8 bytes, "
     "trailing empty module positions and trailing freed link slots dropped, flags OR default flags, midi_out_name '' == None)",
